@@ -15,7 +15,7 @@
    and by the correspondence of the extracted writer model with the library.  Proved below: the
    statements do NOT hold for the pinned tree (five witnesses, each a defect with a patch or a
    finding). *)
-From CAres.Wire Require Import Cursor Name Record Parse Escape Escape_proofs RefDecode Name_ref Write Roundtrip Write_proofs Write_name Write_host Write_name2 Write_pos Write_boundary Write_query Write_patch Write_query2.
+From CAres.Wire Require Import Cursor Name Record Parse Escape Escape_proofs RefDecode Name_ref Write Roundtrip Write_proofs Write_name Write_host Write_name2 Write_pos Write_boundary Write_query Write_patch Write_query2 Write_rr Write_msg.
 From CAres.Gen Require Import Consts Tables.
 Local Open Scope Z_scope.
 
@@ -206,3 +206,34 @@ Theorem C03_backpatch_exact : forall b pre x shadow y,
     holds b2 (pre ++ y ++ skipn (length y) x) shadow.
 Proof. exact holds_patch. Qed.
 Print Assumptions C03_backpatch_exact.
+
+(* WRITE THEN PARSE IS THE IDENTITY (fixed variant), for ALL well-formed records: every header
+   field, the question, and every RR of every section - all 18 decoded types, the OPT pseudo-RR with
+   its options and the extended RCODE bits, and opaque RRs of undecoded types - with name compression
+   across the whole message, the RDLENGTH / OPT / RAW_RR back-patches and the 64k limit.
+   [msg_wf] (Wire/Write_msg.v) is what "well formed" means:
+     id 16 bit, flag bits among the seven the library knows, opcode and RCODE ones it knows, an
+     RCODE above 15 only with an OPT RR in the additional section, at most one OPT RR;
+     exactly ONE question (see findings/C03.json roundtrip-question-count), type 0..65535;
+     owner and question names hostnames in canonical presentation form, RDATA names any octets in
+     canonical form (labels 1..63 octets, 255 on the wire, text shorter than 512 characters);
+     every RR has the keys of its type (the API guarantees it), values in range (u8/u16/u32, 4 / 16
+     address octets), class one the library accepts, TTL 32 bit;
+     <character-string>s at most 255 octets (TXT too: findings roundtrip-fields-txt-over-255),
+     printable where the parser insists and a non-empty CAA tag (findings roundtrip-text-unparseable),
+     non-empty "rest of RDATA" fields, at least one TXT string, option values at most 65535 octets;
+     an opaque RR (RAW_RR) carries a type without a decoder (not 41, not 255).
+   Equality is RefDecode.norm_parsed (NULL = empty, STR = NAME text).
+   Proof: the writer model is shown to append, per field kind, octets that do not depend on what
+   precedes them (Write_enc.v: the name writer as a function of position and offset list;
+   Write_fields*.v: the RDATA writers follow the layout table), so every RR decodes - by the RFC
+   reference decoder - in the FINAL message, after its RDLENGTH slot has been back-patched
+   (Write_rr.v); sections, question and header are assembled (Write_msg.v), the message is shown to be
+   in the supported subset, and C04_complete + C04_sound transfer the result to the parser.
+   _partial: non-canonical name text (trailing dot, \DDD for printable octets) and the statement that
+   re-serialising the parsed record yields the same octets are not covered. *)
+Theorem C03_roundtrip_partial : forall d bs,
+  msg_wf d -> dns_write d = Ok bs ->
+  Z.of_nat (length bs) <= 65535 /\ exists d', dns_parse bs 0 = Ok d' /\ norm_parsed d' = norm_parsed d.
+Proof. exact roundtrip_fixed. Qed.
+Print Assumptions C03_roundtrip_partial.
